@@ -150,6 +150,12 @@ void harness(void) {
     uint8_t* f = malloc(filelen); symx_assume(f != NULL);
     memcpy(f, filebuf, filelen);
     symx_make_symbolic(f + off, WLEN, "w");
+#ifdef WVALUE       /* one exact value of a path-heavy position (the remaining symbolic inputs are the indices and read sizes) */
+    symx_assume(f[off] == WVALUE);
+#endif
+#ifdef WSLICE       /* value-range slice of a path-heavy position: the top 3 bits of the first window byte are fixed (8 slices cover all 256 values) */
+    symx_assume((f[off] >> 5) == WSLICE);
+#endif
     carquet_error_t err; memset(&err, 0, sizeof err);
     carquet_reader_options_t ro; carquet_reader_options_init(&ro);
     ro.verify_checksums = symx_choice(2, "verify_checksums");
